@@ -219,7 +219,8 @@ def step (c : Cfg) (s : St) : Label → Option St
       let s1 := removeSubscriber s i
       some (setSub s1 i { s1.subs i with pc := .returned none })
     else none
-  | .cancel i => some (setSub s i { s.subs i with ctxCancelled := true })
+  | .cancel i =>
+    if (s.subs i).ctxCancelled then none else some (setSub s i { s.subs i with ctxCancelled := true })
   | .pubCall p =>
     if (s.pubs p).pc = .idle then some (setPub s p { s.pubs p with pc := .start }) else none
   | .pubNoTopic p =>
@@ -293,7 +294,8 @@ def step (c : Cfg) (s : St) : Label → Option St
     if (s.shuts k).pc = .waiting ∧ (s.shuts k).ctxDone then
       some (setShut s k { s.shuts k with pc := .returned (some (.ctx k)) })
     else none
-  | .shutCancel k => some (setShut s k { s.shuts k with ctxDone := true })
+  | .shutCancel k =>
+    if (s.shuts k).ctxDone then none else some (setShut s k { s.shuts k with ctxDone := true })
 
 /-- The initial state: nothing called yet. -/
 def init (replayer : Bool) : St :=
